@@ -1,15 +1,15 @@
 SPECIFICATION Spec
 CONSTANTS
-  Shape0 <- Sh0
-  D = 2
-  Scales <- ScalesT
-  RotKeys = {"r90", "r180", "r270", "p345", "p345n", "p51213"}
+  Shape0 <- Sh68
+  D = 1
+  Scales <- ScalesQ
+  RotKeys = {"r90", "p345", "p345n"}
   Modes = {"ceil", "round", "floor"}
-  CropBoxes <- BoxesT
+  CropBoxes <- BoxesQ
   Zooms <- ZoomsQ
   Warps <- WarpsQ
   Order0Warps <- Order0Q
-  Ops <- BaseOps
+  Ops <- ExtOps
 INVARIANT Registered
 INVARIANT ValidInsideOriginal
 INVARIANT Emit
